@@ -28,6 +28,7 @@ func checkC12(c *Ctx, r *Report) {
 	borrow(c, r, c14R1, "C14.R1.short-packet", "C12.R2.short-packet", 1, "only datagrams shorter than a header are dropped before the handler", nil, "a request of exactly twelve octets (a bare header) never reaches its handler and gets no reply")
 	writeDeadline(c, r, "C12.R2.write-deadline")
 	readErrorKept(c, r, "C12.R1.read-error-kept")
+	readErrorNotOverwritten(c, r, "C12.R1.read-error-not-overwritten")
 	readersCutToCount(c, r, "C12.R4.readers-cut-to-count")
 	noReadAhead(c, r, "C12.R1.no-read-ahead")
 	matchingIdEndsWait(c, r, "C12.R3.matching-id-ends-wait")
